@@ -115,6 +115,25 @@ def num_cases(tier):
     return g
 
 
+LETTER_FIELDS = [(0, 'column'), (0, 'node'), (1, 'layer'), (2, 'layer'), (3, 'column'), (3, 'layer')]
+
+
+def order_cases(tier):
+    """name generation under call history: the same numbers asked for two letter fields (of equal or different
+    length, same or different convention) one after the other, in both orders, in ONE case - so that anything
+    remembered between calls shows up from the case alone"""
+    charsets = CHARSETS_Q if tier == 'quick' else CHARSETS_T
+    def g():
+        for a in LETTER_FIELDS:
+            for b in LETTER_FIELDS:
+                if a == b: continue
+                for chars in charsets:
+                    for spaces in (True, False):
+                        for just in 'rl':
+                            yield {'k': 'order', 'seq': [list(a), list(b)], 'chars': chars, 'spaces': spaces, 'just': just}
+    return g
+
+
 def fix_cases():
     for p in PREFIXES:
         for c3 in ALPHA63:
@@ -250,6 +269,8 @@ def geo_random(draw):
         return max(lo, cap + draw(st.integers(-3, 3)))
     c = {'k': 'geo', 'how': how, 'conv': conv, 'atm': atm, 'just': just, 'chars': chars, 'spaces': spaces}
     if case is not None: c['case'] = case
+    warm = draw(st.sampled_from([None, None, 0, 1, 2, 3]))
+    if warm is not None and warm != conv: c['warm'] = warm
     nzmode = draw(st.integers(0, 2))
     nz = near(layeff) if nzmode == 0 else draw(st.integers(1, 6))
     if how == 'rect':
@@ -274,6 +295,7 @@ def searches(tier):
     q = tier == 'quick'
     return [
         Search('numbers', 'enum', num_cases(tier), shards=16),
+        Search('call_order', 'enum', order_cases(tier), shards=16),
         Search('fix_unfix', 'enum', fix_cases, shards=16),
         Search('keys', 'enum', key_cases(tier), shards=8 if q else 16),
         Search('geometries', 'enum', geo_cases(tier), shards=16),
@@ -387,6 +409,33 @@ def run_num(case, R):
                 R.fail('duplicate:' + kind, '%s numbers %d and %d both get the name %r (convention %d, chars %r, '
                        'spaces %r, justify %r)' % (kind, seen[v], n, v, conv, chars, spaces, just))
             else: seen[v] = n
+
+
+def run_order(case, R):
+    import mulgrids
+    chars, spaces, just = case['chars'], case['spaces'], case['just']
+    R.label('order:%s' % '>'.join('%d%s' % (c, k[0]) for c, k in case['seq']))
+    lens = set(NR.field(c, k)[1] for c, k in case['seq'])
+    R.nontrivial(len(lens) > 1)
+    for conv, kind in case['seq']:
+        typ, L = NR.field(conv, kind)
+        cap = NR.capacity(conv, kind, len(chars), spaces)
+        fn = getattr(mulgrids.mulgrid(convention=conv), kind + '_name_from_number')
+        nums = list(range(0, 80)) + [n for n in range(cap - 3, cap + 3) if n >= 80]
+        seen = {}
+        for n in nums:
+            try:
+                with R.lib('%s_name_from_number' % kind, accept=(mulgrids.NamingConventionError,)):
+                    v = fn(n, JUST[just], chars, spaces)
+            except Refused:
+                R.check(n > cap, 'capacity:refused-early:' + kind,
+                        '%s number %d refused although %d names exist (convention %d, chars %r, spaces %r), after calls %r' % (
+                            kind, n, cap, conv, chars, spaces, case['seq']))
+                continue
+            if not check_name_form(R, v, typ, L, chars, spaces, just, kind, doc_justified(conv, kind)): return
+            if v in seen:
+                R.fail('duplicate:' + kind, '%s numbers %d and %d both get %r' % (kind, seen[v], n, v)); return
+            seen[v] = n
 
 
 def judge_name(R, name, fix, unfix):
@@ -660,6 +709,15 @@ def run_geo(case, R):
     R.label('geo:beyond-capacity' if over else 'geo:within-capacity')
     kw = dict(convention=conv, atmos_type=atm, justify=just, chars=case['chars'], spaces=spaces)
     raised = None
+    if case.get('warm') is not None:
+        # another geometry (other convention, same alphabet) built first in the same process: its names must not
+        # leak into this one
+        R.label('geo:after-convention-%d' % case['warm'])
+        try:
+            mulgrids.mulgrid().rectangular([10.] * 3, [20.] * 2, [5.] * 3, convention=case['warm'], atmos_type=2,
+                                           justify=just, chars=case['chars'], spaces=spaces)
+        except mulgrids.NamingConventionError:
+            pass
     try:
         with R.lib(how, accept=(mulgrids.NamingConventionError,)):
             if how == 'rect':
@@ -683,6 +741,18 @@ def run_geo(case, R):
     if how == 'radial': judge_radial(R, g, case, chars, ncols, nz)
     else: judge_mulgrid(R, g, case, chars, ncols, nnodes, nz)
     if over and not R.findings: R.label('geo:beyond-model-capacity-but-sound')
+    # a geometry constructed by reading a file is a geometry the library constructs: the same names, judged the same way
+    if how != 'radial' and not over and not R.findings and just == 'r':       # (the file format right-justifies names)
+        fn = os.path.join(R.tmp, 'geo.dat')
+        with R.lib('write'): g.write(fn)
+        with R.lib('reread'): g2 = mulgrids.mulgrid(fn)
+        R.label('geo:reread')
+        before = len(R.findings)
+        judge_mulgrid(R, g2, case, chars, ncols, nnodes, nz)
+        if len(R.findings) == before:
+            R.check(list(g2.block_name_list) == list(g.block_name_list), 'reread:block-names',
+                    lambda: 'block names of the re-read geometry differ: %r' % (
+                        [(a, b) for a, b in zip(g.block_name_list, g2.block_name_list) if a != b][:4],))
 
 
 def run_case(case, R):
@@ -693,6 +763,7 @@ def run_case(case, R):
     elif k == 'uniq': run_uniq(case, R)
     elif k == 'key': run_key(case, R)
     elif k == 'geo': run_geo(case, R)
+    elif k == 'order': run_order(case, R)
     else: raise HarnessError('unknown case kind %r' % (k,))
 
 
